@@ -25,6 +25,7 @@ import (
 	"gitlab.com/aquachain/aquachain/core/state"
 	"gitlab.com/aquachain/aquachain/core/types"
 	"gitlab.com/aquachain/aquachain/crypto"
+	"gitlab.com/aquachain/aquachain/trie"
 	"gitlab.com/aquachain/aquachain/verifharness/vh"
 )
 
@@ -741,6 +742,11 @@ func (k *Checker) runProgram(class string, prog []Op, withModel bool) {
 						c.Correspond("IntermediateRoot/Commit root hash~StateRoot.state_root keccak256 (st_trie)", cas, vh.Hex(root[:]), k.m.Ask(fmt.Sprintf("realroot %d", o.S)))
 					}
 					if o.K == "commit" {
+						// node-database side of Commit (State/StateDb.v): every key the model inserts is in the
+						// trie.Database (memory or disk) and every key the account root references is reachable
+						// from the state root through the child references, or already on disk
+						mk := k.m.Ask(fmt.Sprintf("dbkeys %d", o.S))
+						c.Correspond("trie.Database nodes + references after Commit~StateDb.commit_db_keys / refs", cas, dbObserve(r, root, mk), mk)
 						// committed: the full content is readable -> compare it literally
 						c.Correspond("Commit, reopen, read back~commit content", cas, renderCommitted(r.db, root)+suffix, content+fmt.Sprintf(" %d", len(r.commits)-1))
 					}
@@ -862,6 +868,29 @@ func (k *Checker) runProgram(class string, prog []Op, withModel bool) {
 		if o.K == "commit" {
 			// O5: reopen at the committed root reads back identically
 			k.nOracle["O5"]++
+			// O6: before the flush, every account leaf's storage root and code hash must be referenced from
+			// the state root in the trie.Database (or be on disk already): what Database.Commit(root) will keep
+			g := newDbGraph(r, root)
+			for _, a := range addrs {
+				ac, ok := st.VerifLeaf(addrOf(a))
+				if !ok {
+					continue
+				}
+				keys := [][]byte{}
+				if ac.Root != emptyRootHash {
+					keys = append(keys, ac.Root[:])
+				}
+				if string(ac.CodeHash) != string(crypto.Keccak256(nil)) {
+					keys = append(keys, ac.CodeHash)
+				}
+				for _, key := range keys {
+					if !g.kept(key) {
+						pre := prog[:idx+1]
+						k.violate("commit-leaf-not-referenced/"+progString(pre), fmt.Sprintf("after Commit the storage root / code hash %x of account %d is neither reachable from the state root in the trie.Database memory layer nor in the disk store: Database.Commit(root) will not persist it", key[:4], a),
+							map[string]interface{}{"program": pre, "text": progString(pre), "at": idx, "address": a, "key": vh.Hex(key)})
+					}
+				}
+			}
 			// flush the committed trie (and the code it references) to the underlying key-value store and
 			// read it back through a brand-new state.Database: no shared trie-node, code or code-size cache
 			var re *state.StateDB
@@ -1131,6 +1160,69 @@ func (k *Checker) runManaged(r *vh.RNG) {
 		c.Count("managed-op")
 	}
 	c.Eval("managed-state", txt)
+}
+
+var emptyRootHash = common.HexToHash("56e81f171bcc55a6ff8345e692c0f86e5b48e01b996cadc001622fb5e363b421")
+
+// the memory layer of the trie.Database as a graph, and what is reachable from the state root
+type dbGraph struct {
+	inMem map[string]bool
+	reach map[string]bool
+	r     *Runner
+}
+
+func newDbGraph(r *Runner, root common.Hash) *dbGraph {
+	nodes, _ := trie.VerifDbDump(r.db.TrieDB())
+	g := &dbGraph{map[string]bool{}, map[string]bool{}, r}
+	ch := map[string][][]byte{}
+	for _, n := range nodes {
+		g.inMem[string(n.Hash)] = true
+		ch[string(n.Hash)] = n.Children
+	}
+	todo := [][]byte{root[:]}
+	for len(todo) > 0 {
+		h := todo[len(todo)-1]
+		todo = todo[:len(todo)-1]
+		if !g.inMem[string(h)] || g.reach[string(h)] {
+			continue
+		}
+		g.reach[string(h)] = true
+		todo = append(todo, ch[string(h)]...)
+	}
+	return g
+}
+
+func (g *dbGraph) onDisk(key []byte) bool { v, err := g.r.disk.Get(key); return err == nil && v != nil }
+
+// kept: Database.Commit(root) leaves this key readable from the disk store
+func (g *dbGraph) kept(key []byte) bool {
+	// reachable in the memory layer (will be flushed), or already in the disk store (an unreferenced
+	// in-memory duplicate of a blob that is on disk is harmless)
+	return (g.inMem[string(key)] && g.reach[string(key)]) || g.onDisk(key)
+}
+
+// dbObserve answers the model's "ins=.. refs=.." line with the keys for which the implementation agrees
+func dbObserve(r *Runner, root common.Hash, modelLine string) string {
+	if !strings.HasPrefix(modelLine, "ins=") {
+		return "none"
+	}
+	g := newDbGraph(r, root)
+	parts := strings.SplitN(modelLine, " refs=", 2)
+	filter := func(csvKeys string, ok func([]byte) bool) string {
+		out := []string{}
+		for _, h := range strings.Split(csvKeys, ",") {
+			if h == "" {
+				continue
+			}
+			if ok(vh.UnHex(h)) {
+				out = append(out, h)
+			}
+		}
+		return strings.Join(out, ",")
+	}
+	ins := filter(strings.TrimPrefix(parts[0], "ins="), func(k []byte) bool { return g.inMem[string(k)] || g.onDisk(k) })
+	refs := filter(parts[1], g.kept)
+	return "ins=" + ins + " refs=" + refs
 }
 
 func contS(w int64) string {
